@@ -269,7 +269,7 @@ def run(chk: framework.Check):
                           "what": "a class referring to itself through a heterogeneous tuple (e: Optional[tuple[Self, int]]): "
                                   "Converter/dict strategy unstructures the tuple as a list (entry assumed via VERIF_F60)"})
     rng = chk.rng
-    G = gen.Gen(rng, unions=True, nt=True)
+    G = gen.Gen(rng, unions=True, nt=True, enum_lits=True)
     drv = lean.Driver()
     n_worlds = 400 if chk.tier == "quick" else 4000
     corr_fail = []
@@ -311,6 +311,8 @@ def run(chk: framework.Check):
                     chk.count(key, nontrivial=not isinstance(ty, str),
                               sample={"cfg": cfg_name(cfg), "type": terms.ty_sx(ty), "value": terms.canon_sx(x), "model": rm})
                     chk.note("cfg:" + cfg_name(cfg), "ty:" + (ty if isinstance(ty, str) else ty[0]))
+                    if gen.has_enum_lit(w, ty):
+                        chk.note("literal-with-enum-members-reachable")
                     # ---- do the theorems' hypotheses hold for this case, and what does the model say about primitivity
                     sc = drv.ask("C03SCOPE %s %s %s" % (terms.cfg_sx(cfg), terms.ty_sx(ty), terms.obj_sx(x)))
                     in_scope = sc.startswith("(1 1 ")
